@@ -320,6 +320,35 @@ func runC18(r *core.Run) {
 				readerStopFrom(c.Format, mk), false, false)
 		})
 
+	type transientStop struct {
+		Format string `json:"format"`
+		Corpus string `json:"corpus"`
+		At     int    `json:"fault_after_bytes"`
+		Error  string `json:"error_identity,omitempty"`
+	}
+	core.Clause(r, "transient-faults", core.Opts{Rule: "the stream fails ONCE at every byte offset and then goes on delivering the rest of the data (a timeout that passed, a retried read), with a plain error and with error values that look temporary (Timeout() and Temporary() true), wrap io.EOF, or are io.ErrNoProgress / io.ErrUnexpectedEOF: every stop position behaves, and for FASTA, FASTQ, BED and Newick the error item is still the last item of the iteration; every medium corpus file; non-trivial = at least 2 items"},
+		func(emit func(transientStop) bool) {
+			for _, f := range formats {
+				for i, d := range corpus(f.Name, "medium") {
+					for at := 0; at <= len(d); at++ {
+						for _, id := range []string{"", "timeout-temporary", "wraps-io.EOF", "io.ErrNoProgress", "io.ErrUnexpectedEOF"} {
+							if !emit(transientStop{f.Name, fmt.Sprint("medium/", i), at, id}) {
+								return
+							}
+						}
+					}
+				}
+			}
+		},
+		func(c transientStop) core.Outcome {
+			data := corpusBy(c.Format, c.Corpus)
+			mk := func() io.Reader {
+				return &envio.FaultReader{Data: data, At: c.At, Resume: true, Err: faultIdentities[c.Error]}
+			}
+			return checkStops(fmt.Sprintf("%s.Reader on %s whose stream fails once after %d bytes (error %q) and then delivers the rest", c.Format, c.Corpus, c.At, c.Error),
+				readerStopFrom(c.Format, mk), false, errLastFormat(c.Format))
+		})
+
 	core.Clause(r, "error-classes-then-records", core.Opts{Rule: "for BED, FASTQ and Newick: every malformed-line class of the format (one malformed field/line from a menu) placed between well-formed records: the error item must be the last item, and every stop position behaves; for SAM (where iteration continues) every stop position behaves; non-trivial = at least 2 items"},
 		func(emit func(c18Input) bool) {
 			bedBad := []string{"a\t0", "a\tx\t1", "a\t0\tx", "a\t0\t1\tn\tx", "a\t0\t1\tn\t0\t?", "a\t0\t1\tn\t0\t+\tx", "a\t0\t1\tn\t0\t+\t0\tx", "a\t0\t1\tn\t0\t+\t0\t0\t1,2", "a\t0\t1\tn\t0\t+\t0\t0\t256,0,0",
